@@ -685,6 +685,15 @@ func (k Keeper) SetOracleAttestation(ctx context.Context, operatorAddress string
 		k.Logger(ctx).Info("Error getting last saved bridge validators", "error", err)
 		return err
 	}
+	// the attestation array of a snapshot was sized and ordered by the validator set in force when the snapshot
+	// was taken; the set may have changed since, so the slot is looked up in that set
+	if snapshotData, err := k.AttestSnapshotDataMap.Get(ctx, snapshot); err == nil {
+		if valsetTimestamp, err := k.GetValidatorSetTimestampBefore(ctx, snapshotData.AttestationTimestamp+1); err == nil {
+			if valsetAtSnapshot, err := k.BridgeValsetByTimestampMap.Get(ctx, valsetTimestamp); err == nil {
+				lastSavedBridgeValidators = valsetAtSnapshot
+			}
+		}
+	}
 	// set the signature in the oracle attestation map by finding the index of the operator address
 	for i, val := range lastSavedBridgeValidators.BridgeValidatorSet {
 		if bytes.Equal(val.EthereumAddress, ethAddress.EVMAddress) {
